@@ -113,6 +113,8 @@ NumFails(R) ==
   IF R.big THEN BigFails(R) ELSE
   IF R.op = "str"
   THEN (IF ~R.unchanged THEN {"C14:value_changed"} ELSE {}) \cup
+       (* C13: with zero guard digits a guarded value prints exactly as the fixed value of the same precision does *)
+       (IF R.cls = "guarded" /\ R.g = 0 /\ "twin_same" \in DOMAIN R /\ ~R.twin_same THEN {"C13:g0_prints_unlike_fixed"} ELSE {}) \cup
        (IF PrintLaw(R) THEN {}
         ELSE IF Negative(R) THEN {"C14:KNOWN_F8"}
         (* F21: guarded with ZERO precision digits shown beyond its precision: "%d.%00d_%0gd" prints a spurious 0 before the underscore *)
